@@ -1871,13 +1871,17 @@ def check_mda_adjoint(res: Result, rng, n: int) -> None:
         if i < len(corpus):
             case, variant = corpus[i]
         else:
-            case = gen_case(rng, True, top="M")
+            # 30 %: size-agnostic leaves, the same MDAChain linearized at points whose vectors change length
+            case = gen_flex_case(rng, top="M") if rng.chance(0.3) else gen_case(rng, True, top="M")
             for r in case["reqs"]:
                 r["call"] = "point"
                 r.pop("how", None)
             variant = variants[i % len(variants)]
         res.evaluations += 1
         res.count("mdachain-adjoint(rounded stream, oracle only)")
+        if is_flex(case):
+            for t in flex_tags(case):
+                res.count("mdachain-adjoint:" + t)
         if "revisited-point" in history_tags(case) and case["proc"].get("cache") == "MemoryFullCache":
             res.count("mdachain-adjoint:revisited-point+MemoryFullCache")
         res.nontrivial("mda:" + case_line(case)[:2000])
